@@ -275,6 +275,33 @@ func RunCase(cs Case, trace func(any)) Result {
 			}
 		})
 	}
+	if cs.ChargeRendezvous > 1 {
+		var rmu sync.Mutex
+		waiting := 0
+		release := make(chan struct{})
+		verifhook.Arm("streamer.makeCharged.enter", func() {
+			rmu.Lock()
+			waiting++
+			ch := release
+			if waiting >= cs.ChargeRendezvous {
+				waiting = 0
+				close(release)
+				release = make(chan struct{})
+				rmu.Unlock()
+				return
+			}
+			rmu.Unlock()
+			select {
+			case <-ch:
+			case <-time.After(3 * time.Millisecond):
+				rmu.Lock()
+				if ch == release && waiting > 0 {
+					waiting--
+				}
+				rmu.Unlock()
+			}
+		})
+	}
 	defer verifhook.Reset()
 
 	avg := cs.AvgEventSize
@@ -394,10 +421,21 @@ func RunCase(cs Case, trace func(any)) Result {
 	if readers > cs.Sources {
 		readers = cs.Sources
 	}
+	// all readers start at the same instant: several streams get charged back to
+	// back while every processor is still asleep
+	startCh := make(chan struct{})
+	defer func() {
+		select {
+		case <-startCh:
+		default:
+			close(startCh)
+		}
+	}()
 	for r := 0; r < readers; r++ {
 		wg.Add(1)
 		go func(r int) {
 			defer wg.Done()
+			<-startCh
 			rrng := rand.New(rand.NewSource(cs.Seed + int64(r)*7919))
 			var mine []int
 			for s := r; s < cs.Sources; s += readers {
@@ -430,6 +468,8 @@ func RunCase(cs Case, trace func(any)) Result {
 			}
 		}(r)
 	}
+	time.Sleep(2 * time.Millisecond) // let every reader reach the barrier
+	close(startCh)
 	readersDone := make(chan struct{})
 	go func() { wg.Wait(); close(readersDone) }()
 	earlyStop := make(chan struct{})
